@@ -209,6 +209,11 @@ type lox struct {
 
 	_qla    int
 	_qlasym any
+
+	// _recovering is true from the moment an error is recovered until a token
+	// is shifted. An error detected in the meantime makes no progress unless
+	// the offending token is dropped.
+	_recovering bool
 }
 
 func (p *parser) parse(lex _Lexer) bool {
@@ -235,6 +240,9 @@ func (p *parser) parse(lex _Lexer) bool {
 			latok, ok := p._lasym.(Token)
 			if !ok {
 				latok = p._lasym.(Error).Token
+			}
+			if p._la != ERROR {
+				p._recovering = false
 			}
 			p._stack.Push(_item{
 				State: action,
@@ -323,6 +331,18 @@ func (p *parser) _recover() bool {
 		p._readToken()
 	}
 
+	if p._recovering {
+		// No token has been shifted since the last recovery: drop the offending
+		// token, otherwise the same recovery would be attempted forever.
+		if p._la == EOF {
+			return false
+		}
+		p._readToken()
+		for p._la == ERROR {
+			p._readToken()
+		}
+	}
+
 	for {
 		save := p._stack
 
@@ -353,6 +373,7 @@ func (p *parser) _recover() bool {
 				p._qlasym = p._lasym
 				p._la = ERROR
 				p._lasym = errSym
+				p._recovering = true
 				return true
 			}
 
